@@ -56,7 +56,7 @@ def o_product(spec):
 
 
 def _leaf(max_q, big):
-    return pgen.operands(max_q=max_q, big_index=big)
+    return pgen.operands(max_q=max_q, big_index=big, near_cancel=True)
 
 
 def tree_nodes(max_q, depth, big=False):
@@ -189,8 +189,8 @@ def trees(tier):
 
 @st.composite
 def binops(draw, tier):
-    a = draw(pgen.operands(max_q=4))
-    b = draw(pgen.operands(max_q=4))
+    a = draw(pgen.operands(max_q=4, near_cancel=True))
+    b = draw(pgen.operands(max_q=4, near_cancel=True))
     op = draw(st.sampled_from(["+", "-", "*", "*", "/", "**"]))
     if op == "/":
         return {"tree": {"op": "/", "a": a, "s": draw(pgen.coefs(zero=False))}}
@@ -237,7 +237,7 @@ def o_binop(spec):
 
 @st.composite
 def sum_cases(draw, tier):
-    s = draw(pgen.sums(max_q=5, max_terms=8, big_index=True))
+    s = draw(pgen.sums(max_q=5, max_terms=8, big_index=True, near_cancel=True))
     return {"s": s}
 
 
@@ -399,7 +399,7 @@ def shared_nodes(n_pool, depth):
 
 @st.composite
 def shared_cases(draw, tier):
-    pool = draw(st.lists(pgen.operands(max_q=3, numbers=False), min_size=1, max_size=3))
+    pool = draw(st.lists(pgen.operands(max_q=3, numbers=False, near_cancel=True), min_size=1, max_size=3))
     return {"pool": pool, "tree": draw(shared_nodes(len(pool), 3 if tier == "quick" else 4)),
             "tree2": draw(shared_nodes(len(pool), 2))}
 
